@@ -45,7 +45,7 @@ import (
 )
 
 func init() {
-	components["wsstream"] = &component{gen: wsGen, enum: wsEnum, run: wsRun}
+	components["wsstream"] = &component{gen: wsGen, enum: wsEnum, run: wsRun, direct: wsDirect}
 }
 
 var wsIoc *sonic.IO
@@ -538,4 +538,110 @@ func wsRun(script []string, w *bufio.Writer) {
 		}
 		fmt.Fprintf(w, "< %s\n", out)
 	}
+}
+
+// wsDirect: sessions with ValidateUTF8(true) (off by default; the model of stream.go and the monitor are stated for the
+// default). The peer sends text frames with valid and invalid UTF-8 among pings and closes, the application reads, writes
+// and closes; the closing-handshake clauses that do not depend on the error class are checked on the wire: never more than
+// one Close frame, no data frame after it; an invalid text frame received while open is reported as an error by the read
+// that meets it, and from then on writes are refused.
+func wsDirect(seed uint64, tier string, args []string, w *bufio.Writer) {
+	trials := 1500
+	if tier == "thorough" {
+		trials = 30000
+	}
+	if wsIoc == nil {
+		wsIoc = sonic.MustIO()
+	}
+	r := newRng(seed*131 + 3)
+	fails := 0
+	fail := func(key, format string, a ...any) {
+		if fails++; fails <= 3 {
+			fmt.Fprintf(w, "DIRECT-FAIL key=wsstream.%s %s\n", key, fmt.Sprintf(format, a...))
+		}
+	}
+	bad := [][]byte{{0xff}, {0x61, 0xc0, 0x80}, {0xe2, 0x82}, {0xed, 0xa0, 0x80}}
+	for t := 0; t < trials && fails == 0; t++ {
+		func() {
+			defer func() {
+				if p := recover(); p != nil {
+					fail("panic", "a stream with UTF-8 validation panicked: %v", p)
+				}
+			}()
+			ws, err := websocket.NewWebsocketStream(wsIoc, nil, websocket.RoleClient)
+			if err != nil {
+				return
+			}
+			ms := newMemStream()
+			if err := ws.VerifAttach(ms); err != nil {
+				return
+			}
+			ws.ValidateUTF8(true)
+			var trace []string
+			sawInvalidWhileOpen := false
+			for i, n := 0, 2+r.intn(8); i < n; i++ {
+				switch r.intn(8) {
+				case 0:
+					ms.feed(wsEncodePeer(true, 0, 1, false, bad[r.intn(len(bad))]))
+					trace = append(trace, "peer invalid-text")
+				case 1:
+					ms.feed(wsEncodePeer(true, 0, 1, false, []byte("ok")))
+					trace = append(trace, "peer text")
+				case 2:
+					ms.feed(wsEncodePeer(true, 0, 9, false, []byte{1}))
+					trace = append(trace, "peer ping")
+				case 3:
+					ms.feed(wsEncodePeer(true, 0, 8, false, []byte{0x03, 0xe8}))
+					trace = append(trace, "peer close")
+				case 4:
+					e := ws.Close(websocket.CloseNormal, "bye")
+					trace = append(trace, fmt.Sprintf("Close=%v", e != nil))
+				case 5:
+					e := ws.Write([]byte("data"), websocket.TypeText)
+					trace = append(trace, fmt.Sprintf("Write=%v", e != nil))
+					if sawInvalidWhileOpen && e == nil {
+						fail("write-not-refused", "a write was accepted after an invalid text frame had been reported (%v)", trace)
+						return
+					}
+				default:
+					before := ws.State()
+					pendingInvalid := len(ms.in) > 0
+					var e error
+					if r.intn(2) == 0 {
+						_, e = ws.NextFrame()
+					} else {
+						done := false
+						ws.AsyncNextFrame(func(err error, _ websocket.Frame) { e, done = err, true })
+						if !done {
+							ms.readErr = errNoData
+							ms.pump()
+						}
+					}
+					trace = append(trace, fmt.Sprintf("read=%s", wsErr(e)))
+					if errors.Is(e, websocket.ErrInvalidUTF8) && before == websocket.StateActive {
+						sawInvalidWhileOpen = true
+					}
+					_ = pendingInvalid
+				}
+			}
+			_ = ws.Flush()
+			_, _ = ws.NextFrame()
+			_ = ws.Flush()
+			frames, _ := wsParseWire(ms.out)
+			closes, afterClose := 0, false
+			for _, f := range frames {
+				if f.op == 8 {
+					closes++
+					afterClose = true
+				} else if afterClose && f.op <= 2 {
+					fail("frame-after-close", "a data frame follows the Close frame on the wire (%v)", trace)
+					return
+				}
+			}
+			if closes > 1 {
+				fail("frame-after-close", "%d Close frames on the wire (%v)", closes, trace)
+			}
+		}()
+	}
+	fmt.Fprintf(w, "DIRECT-STAT {\"wsstream_utf8_sessions\": %d, \"wsstream_utf8_failures\": %d}\n", trials, fails)
 }
